@@ -10,6 +10,8 @@
      <id> recv <lim> <hex stream>               (full receive loop)
      <id> select <lim> <hex header4>            (ops chosen for one header)
      <id> machine <sched WR..> <hex body> <hex ping header> <hex ping payload>
+     <id> wires <body size> <hex ping header> <hex ping payload>   (all finished schedules of length 12)
+     <id> limits_server / limits_client / recvcase / routercase    (same text as the Go harness prints)
      <id> consts
    Everything printed is computed by extracted code; this file only converts
    between text and the extracted inductives. *)
@@ -125,13 +127,82 @@ let handle id = function
         (String.concat "," (List.map show_rop (m_select (z_of_int 512) [z_of_int 1; Z0; Z0; Z0])))
   | l -> Printf.printf "%s ERROR bad case: %s\n" id (String.concat " " l)
 
+
+(* ---- combined cases: the same text the Go harness prints ---- *)
+
+let ints_of_csv s = if s = "-" || s = "" then [] else List.map int_of_string (String.split_on_char ',' s)
+
+let len3_int n = [z_of_int ((n lsr 16) land 0xff); z_of_int ((n lsr 8) land 0xff); z_of_int (n land 0xff)]
+
+let classify_ops n ops =
+  match ops with
+  | [RReadBody m; RDeserialize] when int_of_z m = n -> "delivered"
+  | [RCloseReturn] -> "closed"
+  | [] -> "nil"
+  | l -> "other:" ^ String.concat "," (List.map show_rop l)
+
+let probe_text sl rl sends recvs =
+  let s1 = List.map (fun n ->
+      if m_send_drop (z_of_int n) sl then Printf.sprintf "%d:dropped" n
+      else Printf.sprintf "%d:sent:%s" n (hex_of_bytes (m_send_header (z_of_int n)))) sends in
+  let rec go = function
+    | [] -> []
+    | n :: t ->
+        let c = classify_ops n (m_select rl (Z0 :: len3_int n)) in
+        let r = Printf.sprintf "%d:%s" n c in
+        if c = "closed" then [r] else r :: go t in
+  let s2 = go recvs in
+  let j l = if l = [] then "-" else String.concat ";" l in
+  Printf.sprintf "hs=ok send=%s recv=%s" (j s1) (j s2)
+
+let events_text evs = String.concat " " (List.map show_event evs)
+
+let rec all_scheds n = if n = 0 then [[]] else
+    List.concat_map (fun s -> [W :: s; R :: s]) (all_scheds (n - 1))
+
+let handle2 id = function
+  | ["limits_server"; cfg; b1; sends; recvs] ->
+      (match accept_handshake (z_of_int (int_of_string cfg)) (z_of_int 8) [z_of_int 0x7f; z_of_int (int_of_string b1); Z0; Z0] with
+       | HsPeer (_, _, sl, rl) -> Printf.printf "%s %s\n" id (probe_text sl rl (ints_of_csv sends) (ints_of_csv recvs))
+       | HsErr _ -> Printf.printf "%s hs=fail\n" id); true
+  | ["limits_client"; proto; cfg; reply; sends; recvs] ->
+      (match connect_handshake (z_of_int (int_of_string cfg)) (z_of_int (int_of_string proto)) (bytes_of_hex reply) with
+       | HsPeer (_, _, sl, rl) -> Printf.printf "%s %s\n" id (probe_text sl rl (ints_of_csv sends) (ints_of_csv recvs))
+       | HsErr _ -> Printf.printf "%s hs=fail\n" id); true
+  | ["recvcase"; cfg; nib; serb; stream] ->
+      let b1 = (int_of_string nib) * 16 + int_of_string serb in
+      (match accept_handshake (z_of_int (int_of_string cfg)) (z_of_int 8) [z_of_int 0x7f; z_of_int b1; Z0; Z0] with
+       | HsPeer (_, _, _, rl) -> Printf.printf "%s hs=ok %s\n" id (events_text (m_recv rl (bytes_of_hex stream)))
+       | HsErr _ -> Printf.printf "%s hs=fail\n" id); true
+  | ["routercase"; cfg; serb; stream] ->
+      let (rl0, oq) = server_accept_args (z_of_int (int_of_string cfg)) Z0 in
+      let b1 = 15 * 16 + int_of_string serb in
+      (match accept_handshake rl0 oq [z_of_int 0x7f; z_of_int b1; Z0; Z0] with
+       | HsPeer (w, _, _, rl) ->
+           Printf.printf "%s reply=%s attaches=%b %s\n" id (hex_of_bytes (List.concat w)) server_attaches_peer (events_text (m_recv rl (bytes_of_hex stream)))
+       | HsErr _ -> Printf.printf "%s hs=fail\n" id); true
+  | ["wires"; size; hdr; payload] ->
+      let b = List.init (int_of_string size) (fun _ -> Z0) and h = bytes_of_hex hdr and p = bytes_of_hex payload in
+      let seen = Hashtbl.create 16 in
+      List.iter (fun sc ->
+          let st = m_machine sc b h p in
+          if finished st then begin
+            let key = String.concat "," (List.map (fun ((w, _), bs) ->
+                (match w with W -> "W" | R -> "R") ^ ":" ^ string_of_int (List.length bs) ^ ":" ^
+                hex_of_bytes (List.filteri (fun i _ -> i < 4) bs)) st.wire) in
+            if not (Hashtbl.mem seen key) then Hashtbl.add seen key (contiguousb (tags st))
+          end) (all_scheds 12);
+      let l = Hashtbl.fold (fun k c acc -> (k ^ "/" ^ (if c then "contiguous" else "INTERLEAVED")) :: acc) seen [] in
+      Printf.printf "%s %s\n" id (String.concat " | " (List.sort compare l)); true
+  | _ -> false
+
 let () =
   try
     while true do
       let line = input_line stdin in
       if String.length line > 0 then begin
         match String.split_on_char ' ' line with
-        | id :: rest -> (try handle id rest with e -> Printf.printf "%s ERROR %s\n" id (Printexc.to_string e))
+        | id :: rest -> (try (if not (handle2 id rest) then handle id rest) with e -> Printf.printf "%s ERROR %s\n" id (Printexc.to_string e))
         | [] -> ()
       end
     done
